@@ -324,6 +324,20 @@ def probes(ctx, exe, fails):
     nle = sum(1 for l in got.split("\n") if l == "e" * 40)
     if (nlo, nle) != (300, 300):
         seen["same-file-alias"] = "OFILE and EFILE name one file in two spellings, 300 lines on each stream: the file holds %d and %d whole lines" % (nlo, nle)
+    # OFILE is a fifo somebody reads from, EFILE a file of its own: telling whether the two are one file must not open the fifo
+    # (the reader would see an end of file before the job has written anything)
+    fifo = os.path.join(base, "fifo")
+    os.mkfifo(fifo)
+    rdr = subprocess.Popen(["/bin/sh", "-c", "cat '%s' > '%s/fifo.got'" % (fifo, base)])
+    rc, j, err = run([vtodo("fifo", "sleep 0.3; echo through-the-fifo; echo oops >&2",
+                            ["X-ECHS-OFILE:%s" % fifo, "X-ECHS-EFILE:%s/fifo.err" % base, "X-ECHS-MAIL-OUT:0", "X-ECHS-MAIL-ERR:0"])])
+    try:
+        rdr.wait(timeout=10)
+    except subprocess.TimeoutExpired:
+        rdr.kill()
+    if rc is None or (rd("fifo.got"), rd("fifo.err")) != ("through-the-fifo\n", "oops\n"):
+        fails.append((0, "OFILE a fifo with a reader, EFILE a file: echsx ends with %s, the reader got %r, the file holds %r"
+                         % (rc, rd("fifo.got"), rd("fifo.err"))))
     shutil.rmtree(base, ignore_errors=True)
     ctx.cov["probes"] = dict(seen) or "all probes as demanded"
     known = {k.get("class"): k for k in common.load_known("C13") if k.get("status") == "known"}
